@@ -520,7 +520,7 @@ pub const NEST_FAMILIES: usize = 26;
 /// Wrap `inner` with wrapper `w`. Code-level wrappers take/return a code expression.
 /// Families 0..NEST_FAMILIES take part in the mixed nestings of G-NEST; NEST_FAMILIES..NEST_FAMILIES_ALL are pure ladders only
 /// (C18, C05): calls nested through their trailing content blocks, spreads, statements, left-nested operands, …
-pub const NEST_FAMILIES_ALL: usize = 44;
+pub const NEST_FAMILIES_ALL: usize = 54;
 
 pub fn wrap(w: usize, inner: &str) -> String {
     if w >= NEST_FAMILIES && w < NEST_FAMILIES_ALL {
@@ -547,7 +547,20 @@ pub fn wrap(w: usize, inner: &str) -> String {
             40 => format!("{}(1)", h),
             41 => format!("f({})[x]", inner),
             42 => format!("(a, {}) => 1", if inner.chars().all(|c| c.is_alphanumeric()) { inner.to_string() } else { format!("b: {}", inner) }),
-            _ => format!("[#set text(red)[#{}]]", h),
+            43 => format!("[#set text(red)[#{}]]", h),
+            // tables/grids whose layout analysis gives up late: the nested call comes first, the argument that makes the table
+            // "not formatable as a grid" (cell call, spread, named argument after a positional one, line) comes after it
+            44 => format!("grid(columns: 1, {}, grid.cell[c])", inner),
+            45 => format!("grid(columns: 1, [x], {}, ..rest)", inner),
+            46 => format!("table(columns: 1, {}, stroke: none)", inner),
+            47 => format!("table(columns: 2, [a], {}, table.hline(), [b])", inner),
+            48 => format!("table(columns: 2, table.header[h], {})", inner),
+            49 => format!("table(columns: (1fr, auto), {}, [b], // c\n [d])", inner),
+            // a late argument of another kind after the nested call (fallbacks of argument layout)
+            50 => format!("f({}, ..r)[t]", inner),
+            51 => format!("a.b({}, k: 1).c(..r)", inner),
+            52 => format!("f({}, x => x, [t])", inner),
+            _ => format!("f(({}), (1, 2), k: (a: 1))", inner),
         };
     }
     match w % NEST_FAMILIES {
@@ -608,8 +621,10 @@ pub fn nest_pure(family: usize, depth: usize) -> String {
 pub fn nest_mixed(i: u64, depth: usize) -> String {
     let mut r = Rng::new(i ^ 0x4e45_5354);
     let mut s = atom(&mut r);
+    // indices from 2 000 000 mix all families (the pure-ladder ones included); below, the first NEST_FAMILIES as before
+    let nf = if i >= 2_000_000 { NEST_FAMILIES_ALL } else { NEST_FAMILIES };
     for _ in 0..depth {
-        s = wrap(r.below(NEST_FAMILIES), &s);
+        s = wrap(r.below(nf), &s);
     }
     format!("#{}", paren_if_needed(&s))
 }
